@@ -305,14 +305,23 @@ def s5(ctx):
         f = ctx.func(q)
         cfg = ctx.cfg(f)
         ok = False
-        for n in cfg.nodes:
-            if n.kind == "for" and dotted(n.ast.iter) == "WELLKNOWN_DAV_PATHS":
-                var = n.ast.target.id if isinstance(n.ast.target, ast.Name) else None
-                for m in cfg.stmt_nodes():
-                    for c in m.calls():
-                        if (dotted(c.func) or "").endswith("add_route") and len(c.args) >= 3 and isinstance(c.args[1], ast.Name) and c.args[1].id == var \
-                                and "RedirectDavHandler" in src(c.args[2]):
-                            ok = True
+        du = DefUse(cfg)
+        from ..dataflow import origins, iter_exprs
+        wk_loops = [n for n in cfg.nodes if n.kind == "for" and any(dotted(it) == "WELLKNOWN_DAV_PATHS" for it in iter_exprs(du, n))]
+        for m in cfg.stmt_nodes():
+            for c in m.calls():
+                if not ((dotted(c.func) or "").endswith("add_route") and len(c.args) >= 3):
+                    continue
+                po = origins(du, m, c.args[1])
+                if not (po and all(o.kind == "elem" and o.node in wk_loops for o in po)):
+                    continue
+                # the handler: RedirectDavHandler(...) itself or its bound __call__, possibly through a local name
+                h = c.args[2]
+                while isinstance(h, ast.Attribute):
+                    h = h.value
+                ho = origins(du, m, h) if isinstance(h, ast.Name) else [None]
+                if "RedirectDavHandler" in src(c.args[2]) or (ho and all(o is not None and o.leaf is not None and "RedirectDavHandler" in src(o.leaf) for o in ho)):
+                    ok = True
         obs.append(ctx.ob(ok, q, f.where, "redirect registered for every well-known path", "for path in WELLKNOWN_DAV_PATHS: add_route('*', path, RedirectDavHandler(...))",
                           "%s no longer registers a RedirectDavHandler for every path in WELLKNOWN_DAV_PATHS" % f.short))
     rh = ctx.own_method(WEB + ".RedirectDavHandler", "__call__")
